@@ -40,6 +40,7 @@ type Scn struct {
 	Rep    []int  `json:"rep,omitempty"` // giant texts: Text[i] stands for Rep[i] consecutive copies (scanners only, run-length encoded trace)
 	Cut    []int  `json:"cut,omitempty"` // rich/hard: extra segment boundaries before these grapheme indices
 	Widths []int  `json:"widths"`
+	Draw   bool   `json:"draw,omitempty"` // giant texts: the widget is drawn as well (event rdraw; small widths only)
 }
 
 const Inf = 65535 // "no width limit" (hard-wrap scanner)
@@ -82,6 +83,13 @@ func Facts(s string) []Fact {
 	}
 	if n := len(out); n > 0 {
 		out[n-1].Gl = false
+	}
+	// UAX #14 LB4/LB5: there is always a break after a line terminator, whatever follows. (uniseg
+	// v0.4.4 reports "no break" in front of a hyphen that is followed by a digit even there.)
+	for i := range out {
+		if out[i].Nl {
+			out[i].Gl = false
+		}
 	}
 	return out
 }
@@ -370,6 +378,9 @@ func Run(c *Ctx, sc *Scn) (evs []trace.Ev, note string) {
 // MaxGiantLines bounds the lines of a giant text the trace spec is asked to judge.
 const MaxGiantLines = 200
 
+// MaxGiantCells bounds the surface of a drawn giant text that is recorded (cell by cell).
+const MaxGiantCells = 4096
+
 // pack run-length encodes a sequence of tuples: equal neighbours become one tuple with the count appended.
 func pack(ts [][]int) [][]int {
 	out := [][]int{}
@@ -396,7 +407,9 @@ func pack(ts [][]int) [][]int {
 // runGiant executes a scenario whose text is given as runs (Text[i] repeated Rep[i] times) and is
 // too long for one trace record per grapheme: the facts of the text and the emitted lines are
 // computed grapheme by grapheme as for every other text and then run-length encoded (events
-// reset.rinp and rscan, judged by WrapRelRL). Only the scanners are run, nothing is drawn.
+// reset.rinp and rscan, judged by WrapRelRL). Only the scanners are run, unless the descriptor asks
+// for the widget too (Draw: event rdraw = the surface cell by cell, judged against the run-length
+// encoded lines of the rscan before it by WrapRelRL!DrawOK).
 func runGiant(c *Ctx, sc *Scn) (evs []trace.Ev, note string) {
 	skip := func(why string) ([]trace.Ev, string) {
 		c.Unstable.Add(1)
@@ -485,7 +498,36 @@ func runGiant(c *Ctx, sc *Scn) (evs []trace.Ev, note string) {
 				}
 				c.Dump("%s giant %d graphemes w=%d done=%v line widths=%v\n", sc.Kind, len(facts), w, fin, ws)
 			}
-			done <- []trace.Ev{{"ev": "rscan", "w": w, "done": fin, "lines": lines}}
+			out := []trace.Ev{{"ev": "rscan", "w": w, "done": fin, "lines": lines}}
+			if sc.Draw {
+				var surf vxfw.Surface
+				pan = guarded(func() {
+					var err error
+					if sc.Kind == "plain" {
+						t := text.New(str)
+						t.Style = Style(1)
+						surf, err = t.Draw(dctx(w, math.MaxUint16))
+					} else {
+						var segs []vaxis.Segment
+						for i, g := range sc.Text {
+							segs = append(segs, vaxis.Segment{Text: strings.Repeat(g.S, sc.Rep[i]), Style: Style(g.St)})
+						}
+						surf, err = richtext.New(segs).Draw(dctx(w, math.MaxUint16))
+					}
+					if err != nil {
+						panic("Draw error: " + err.Error())
+					}
+				})
+				if pan != "" {
+					out = append(out, trace.Ev{"ev": "panic", "in": "draw", "w": w, "msg": ascii(pan)})
+				} else if int(surf.Size.Width)*int(surf.Size.Height) <= MaxGiantCells {
+					if c.Dump != nil {
+						c.Dump("%s giant w=%d drawn %dx%d\n", sc.Kind, w, surf.Size.Width, surf.Size.Height)
+					}
+					out = append(out, trace.Ev{"ev": "rdraw", "w": w, "sw": int(surf.Size.Width), "sh": int(surf.Size.Height), "rows": c.rowsOf(surf)})
+				}
+			}
+			done <- out
 		}()
 		select {
 		case out := <-done:
@@ -521,7 +563,33 @@ func Giants() []*Scn {
 		{[]run{{"x", 1}, {" ", 1}, {"a", 65539}, {"\n", 1}, {"y", 1}, {"\n", 2}, {"z", 1}}, []int{30000}}, // hard breaks around a giant word
 		{[]run{{"（", 1}, {"a", 40000}, {" ", 1}, {"（", 1}, {"b", 20000}}, []int{20001, 40000}},            // glued prefix before a giant run of letters
 	}
+	// drawn as well: the line that ends with a hard break or with the text keeps its trailing white
+	// space, so its width as emitted passes 65535 although what is to be seen of it fits the width
+	drawn := []struct {
+		runs   []run
+		widths []int
+	}{
+		{[]run{{"a", 1}, {"b", 1}, {" ", 65534}}, []int{10}},
+		{[]run{{"a", 1}, {"b", 1}, {" ", 65535}, {"\n", 1}}, []int{3, 10}},
+		{[]run{{"a", 5}, {" ", 65531}, {"\n", 1}, {"c", 1}, {" ", 1}, {"d", 1}}, []int{8}},
+		{[]run{{"x", 1}, {" ", 65540}, {"y", 1}}, []int{10}},
+		{[]run{{"世", 1}, {"a", 1}, {" ", 65533}}, []int{4}},
+	}
 	var out []*Scn
+	for _, t := range drawn {
+		for _, k := range []string{"plain", "rich"} {
+			sc := &Scn{Kind: k, Gen: "giant", Widths: t.widths, Draw: true}
+			for i, r := range t.runs {
+				st := 0
+				if k != "plain" {
+					st = (i + 1) % 4
+				}
+				sc.Text = append(sc.Text, GD{S: r.s, St: st})
+				sc.Rep = append(sc.Rep, r.n)
+			}
+			out = append(out, sc)
+		}
+	}
 	for _, t := range texts {
 		for _, k := range []string{"plain", "rich"} {
 			sc := &Scn{Kind: k, Gen: "giant", Widths: t.widths}
@@ -588,6 +656,8 @@ func classGrapheme(cls byte, i int) string {
 		return "（"
 	case 'G': // no-break space: white space with no break opportunity next to it (LB12, LB12a)
 		return "\u00a0"
+	case 'D': // a digit: not a letter; UAX #14 LB25 keeps a hyphen and the digit after it together
+		return string(rune('0' + i%10))
 	}
 	panic("class")
 }
@@ -655,8 +725,10 @@ func Random(rng *rand.Rand, kind string) *Scn {
 				cls = append(cls, "OG"[y])
 			}
 			for k := 1 + rng.Intn(9); k > 0; k-- {
-				if rng.Intn(6) == 0 {
+				if z := rng.Intn(12); z < 2 {
 					cls = append(cls, 'M')
+				} else if z == 2 {
+					cls = append(cls, 'D')
 				} else {
 					cls = append(cls, 'L')
 				}
@@ -672,6 +744,12 @@ func Random(rng *rand.Rand, kind string) *Scn {
 		case x < 16:
 			for k := 1 + rng.Intn(2); k > 0; k-- {
 				cls = append(cls, 'N')
+			}
+			if rng.Intn(3) == 0 { // a number with a sign right behind the break
+				cls = append(cls, 'H')
+				for k := 1 + rng.Intn(3); k > 0; k-- {
+					cls = append(cls, 'D')
+				}
 			}
 		case x < 18:
 			for k := 1 + rng.Intn(4); k > 0; k-- {
@@ -726,6 +804,8 @@ func Corners() []*Scn {
 		"（ab", "xy \u00a0ab", "（（ab", "a（bc）d", "ab\u00a0cd", "\u00a0ab\u00a0cd", "« ab »", "(ab) [cd]", "（abc（de", // glued prefixes: a cut of the segment must not split the letters
 		"\u0301ab", "a\n\u0301b", "\u0301", "a\u200bb", // clusters of width 0 at the start of a line or on their own
 		"世\nb", "世 b", "世\n\nb", "a世\nb", // a grapheme wider than the line before a break
+		"a\n-1", "total:\n-5 degrees", "ab\r\n-1", "x\n\n-2", "\n-1", "a \n-1 b", "世\n-1", "-1\n-2\n-3", "a\n- 1", "a\n--1", // a hard break in front of a hyphen and a digit
+		"a -1", "ab-12 cd", "ab1cd", "x 1-2-3 y", "12 345 6789", "a\n1", "a\n\n\n-1\n", // digits elsewhere
 	}
 	var out []*Scn
 	for _, t := range texts {
